@@ -202,7 +202,7 @@ def run(ctx):
         if i == "T":
             ups["other"].append(("call result", th.where(b)))
             continue
-        e = retype(th, strip(th.expr_rvalue(th.def_rvalue((b, i)), deep=True)), special)
+        e = retype(th, strip(mir.inline_pure(cr, th.expr_rvalue(th.def_rvalue((b, i)), deep=True))), special)
         nest = [h for h, blks in loops.items() if b in blks]
         arm = None
         for x in th.dominators(b):
@@ -219,6 +219,13 @@ def run(ctx):
             ups["other"].append((txt + f" (loop nesting {len(nest)}, arm {arm})", th.where(b)))
         else:
             ups[arm].append((txt, th.where(b)))
+    # the accumulator may also be changed through a mutable borrow (`cost += &x` is a call of AddAssign::add_assign)
+    for b in th.reachable_blocks():
+        for st in th.stmts(b):
+            rv = st.get("rv", {})
+            for k in ("ref", "rawptr"):
+                if k in rv and rv[k][0] not in ("shr", "const", "fake") and rv[k][1]["l"] == cost_l[0]:
+                    ups["other"].append(("&mut borrow of the cost accumulator", th.where(b)))
     want = {"init": ["SHA256TREE_BASE_COST"],
             "Buffer": ["(COST Add (((::len(&*(Allocator::node(&<&mut allocator::Allocator>, NODE) as Buffer).0) Add 1) as u64) Mul RATE))"],
             "U32": ["(COST Add (((Allocator::atom_len(&<&mut allocator::Allocator>, NODE) Add 1) as u64) Mul RATE))"],
